@@ -18,7 +18,7 @@ from ..util import arr_equal_ulp, describe
 
 PROP = 'C02'
 
-SCALARS = [2, 3, -1, 0.5]
+SCALARS = [2, 3, -1, 0.5, 0]      # 0: a falsy operand is still an operand
 BINARY = ['add', 'radd', 'sub', 'rsub', 'mul', 'rmul', 'truediv', 'rtruediv', 'floordiv',
           'rfloordiv', 'pow', 'rpow']
 COLS = [{'k': 'slice', 'v': [None, None, -1]}, {'k': 'list', 'v': [1]}, {'k': 'list', 'v': [2, 0]}]
@@ -38,7 +38,7 @@ def alphabet():
     return ops
 
 
-TREE_OPS = [['neg', None], ['add', 2], ['rsub', 3], ['mul', 0.5], ['rtruediv', 2], ['pow', 2],
+TREE_OPS = [['neg', None], ['add', 2], ['rsub', 0], ['mul', 0.5], ['rtruediv', 2], ['pow', 2],
             ['rfloordiv', 3], ['cols', COLS[0]], ['cols', COLS[2]]]
 
 
